@@ -7,6 +7,7 @@ DJB's specification, Spec/Lookup3 after lookup3.c).
 import Cascette.Proofs.Salsa20
 import Cascette.Proofs.Jenkins
 import Cascette.Proofs.Arc4
+import Cascette.Proofs.Rc4
 import Cascette.Proofs.Simd
 namespace Cascette.Props.C09
 open Cascette
@@ -106,6 +107,65 @@ theorem arc4_piecewise (c : Model.Arc4.Cipher) (a b : Bytes) :
       (Model.Arc4.apply c a).2 ++ (Model.Arc4.apply (Model.Arc4.apply c a).1 b).2 := by
   rw [Proofs.Arc4.apply_append]
 
+/-- **ARC4 = RC4.** For every key (1..256 bytes accepted, anything else rejected by both) and every
+message, the model of the Rust `Arc4Cipher` (a 256-byte array, `u8` wrapping index arithmetic,
+`getD`/`setIfInBounds` accesses) produces exactly the output of textbook RC4 written over a
+permutation function with `mod 256` arithmetic (Spec/Rc4). No hypothesis. -/
+theorem arc4_model_eq_spec (key msg : Bytes) :
+    Model.Arc4.crypt key msg = Spec.Rc4.crypt key msg :=
+  Proofs.Rc4.crypt_eq_spec key msg
+
+/-- The streaming interface too: after `Arc4Cipher::new(key)`, a first `apply_keystream(a)` and a
+second `apply_keystream(b)` XOR `a` with RC4 keystream bytes `0..|a|` and `b` with bytes
+`|a|..|a|+|b|` of the published generator. -/
+theorem arc4_stream_eq_spec (key : Bytes) (c : Model.Arc4.Cipher) (a b : Bytes)
+    (hk : 0 < key.length) (h : Model.Arc4.new key = some c) :
+    (Model.Arc4.apply c a).2 =
+      List.zipWith (fun m k => m ^^^ BitVec.ofNat 8 k) a
+        (Spec.Rc4.keystream (Spec.Rc4.init key hk) a.length) ∧
+    (Model.Arc4.apply (Model.Arc4.apply c a).1 b).2 =
+      List.zipWith (fun m k => m ^^^ BitVec.ofNat 8 k) b
+        (Spec.Rc4.keystream (Spec.Rc4.after (Spec.Rc4.init key hk) a.length) b.length) := by
+  have hr := Proofs.Rc4.rel_of_new key hk c h
+  have h1 := Proofs.Rc4.rel_apply a c _ hr
+  exact ⟨h1.2, (Proofs.Rc4.rel_apply b _ _ h1.1).2⟩
+
+/-- Every array access of KSA and PRGA is in bounds: the model with CHECKED indexing (`s[i]?`,
+`none` where the Rust would panic on an out-of-range index or on `i % 0`) returns exactly what the
+model returns, for every key and message — so no `getD` ever defaults and no `setIfInBounds` is
+ever dropped, and (with `arc4_key_len_guard`) no accepted key can panic. -/
+theorem arc4_index_in_bounds (key msg : Bytes) :
+    Model.Arc4.Checked.crypt key msg = Model.Arc4.crypt key msg :=
+  Proofs.Rc4.checked_crypt_eq key msg
+
+/-- The S-box stays a permutation of the 256 byte values, with 256 slots, in every state reachable
+from `new` by any amount of keystream. -/
+theorem arc4_sbox_permutation (key : Bytes) (c : Model.Arc4.Cipher) (msg : Bytes)
+    (h : Model.Arc4.new key = some c) :
+    (Model.Arc4.apply c msg).1.s.size = 256 ∧
+    (Model.Arc4.apply c msg).1.s.Perm ((Array.range 256).map (BitVec.ofNat 8)) := by
+  have hs := Proofs.Rc4.new_size key c h
+  exact ⟨by rw [Proofs.Rc4.apply_size]; exact hs,
+    (Proofs.Rc4.apply_perm msg c hs).trans (Proofs.Rc4.new_perm key c h)⟩
+
+/-- … and so does the specification's permutation function (sanity of the transcription: every
+reachable `S` maps `0..255` into itself injectively). -/
+theorem rc4_spec_permutation (key : Bytes) (hk : 0 < key.length) (n : Nat) :
+    Spec.Rc4.IsPerm (Spec.Rc4.after (Spec.Rc4.init key hk) n).S :=
+  Proofs.Rc4.isPerm_after n _ (Proofs.Rc4.isPerm_init key hk)
+
+/-- TEST of the transcription Spec/Rc4 (kernel evaluation): the published RC4 vectors
+"Key"/"Plaintext", "Wiki"/"pedia", "Secret"/"Attack at dawn". -/
+theorem rc4_spec_known_answers :
+    Spec.Rc4.crypt [0x4b, 0x65, 0x79] [0x50, 0x6c, 0x61, 0x69, 0x6e, 0x74, 0x65, 0x78, 0x74] =
+      some [0xbb, 0xf3, 0x16, 0xe8, 0xd9, 0x40, 0xaf, 0x0a, 0xd3] ∧
+    Spec.Rc4.crypt [0x57, 0x69, 0x6b, 0x69] [0x70, 0x65, 0x64, 0x69, 0x61] =
+      some [0x10, 0x21, 0xbf, 0x04, 0x20] ∧
+    Spec.Rc4.crypt [0x53, 0x65, 0x63, 0x72, 0x65, 0x74]
+        [0x41, 0x74, 0x74, 0x61, 0x63, 0x6b, 0x20, 0x61, 0x74, 0x20, 0x64, 0x61, 0x77, 0x6e] =
+      some [0x45, 0xa0, 0x1f, 0x64, 0x5f, 0xc3, 0x5b, 0x38, 0x35, 0x52, 0x54, 0x4b, 0x9b, 0xf5] := by
+  decide +kernel
+
 /-! ### accelerated helpers = portable fallbacks (lane width 32 = AVX2, 16 = SSE2) -/
 
 open Model.Simd in
@@ -188,5 +248,9 @@ example : (Model.Salsa20.crypt (List.replicate 16 1) [2,3,4,5] 7 [0x41, 0x42]).i
   rw [salsa20_iv_len_guard _ _ _ _ (by decide)]; decide
 example : (Model.Arc4.new [0x4b, 0x65, 0x79]).isSome = true := by
   rw [arc4_key_len_guard]; decide
+/-- the hypothesis `new key = some c` of `arc4_stream_eq_spec` / `arc4_sbox_permutation` is met by
+every key of 1..256 bytes (e.g. "Key"). -/
+example : ∃ c, Model.Arc4.new [0x4b, 0x65, 0x79] = some c :=
+  Option.isSome_iff_exists.mp ((arc4_key_len_guard _).mpr (by decide))
 
 end Cascette.Props.C09
